@@ -177,7 +177,7 @@ func (p c01) Run(c *fw.Ctx, idx int) fw.Result {
 		}
 		res.Count("subgraph_requests", int64(len(got.Requests)))
 		res.Count("entity_requests", int64(nEnt))
-		match := map[string]string{"features": featureString(prof), "operation_kind": string(gop.Operation), "union_fragment_in_non_union_parent": fmt.Sprint(gen.UnionFragmentInNonUnionParent(l.Super, doc)), "incomparable_type_condition_chains": fmt.Sprint(triage.IncomparableTypeConditionChains(superGql, qd, gop))}
+		match := map[string]string{"features": featureString(prof), "operation_kind": string(gop.Operation), "union_fragment_in_non_union_parent": fmt.Sprint(gen.UnionFragmentInNonUnionParent(l.Super, doc)), "incomparable_type_condition_chains": fmt.Sprint(triage.IncomparableTypeConditionChains(superGql, qd, gop)), "narrowed_at_ancestor_and_not_below_abstract_parent": fmt.Sprint(triage.NarrowedAtAncestorAndNotBelowAbstractParent(superGql, qd, gop))}
 		full := func(extra map[string]any) map[string]any {
 			d := detail(map[string]any{"requests": reqDump, "gateway_response": truncate(got.Raw, 3000)})
 			for k, v := range extra {
